@@ -1,7 +1,474 @@
 package main
 
-import "github.com/cloudspannerecosystem/memefish/ast"
+import (
+	"bufio"
+	"encoding/json"
+	"fmt"
+	"math/rand"
+	"os"
+	"reflect"
+	"regexp"
+	"strconv"
+	"strings"
+	"sync"
 
-func (g *gramRun) writeWalk(root ast.Node) {}
-func (g *gramRun) writePosl(root ast.Node) {}
-func loadPosDocs(path string) error         { return nil }
+	"github.com/cloudspannerecosystem/memefish/ast"
+	"github.com/cloudspannerecosystem/memefish/token"
+	"github.com/cloudspannerecosystem/memefish/tools/util/poslang"
+)
+
+// ---------------------------------------------------------------------------------------------
+// C17: traversal records (validated by WalkTrace.tla)
+// ---------------------------------------------------------------------------------------------
+
+type walkNode struct {
+	Kind string  `json:"kind"`
+	Ch   [][]any `json:"ch"` // [field, index, child id]
+}
+type walkRun struct {
+	Mode  string  `json:"mode"`
+	Prune []int   `json:"prune"`
+	Stop  int     `json:"stop"`
+	Pan   bool    `json:"pan"`
+	Log   [][]any `json:"log"` // [id, path]
+}
+type walkRec struct {
+	Nodes []walkNode `json:"nodes"`
+	Roots []int      `json:"roots"`
+	Runs  []walkRun  `json:"runs"`
+}
+
+type pathVisitor struct {
+	path  []string
+	ids   map[ast.Node]int
+	prune map[int]bool
+	log   *[][]any
+}
+
+func (v *pathVisitor) with(s string) *pathVisitor {
+	p := make([]string, len(v.path)+1)
+	copy(p, v.path)
+	p[len(v.path)] = s
+	return &pathVisitor{path: p, ids: v.ids, prune: v.prune, log: v.log}
+}
+func (v *pathVisitor) Visit(n ast.Node) ast.Visitor {
+	id := v.ids[n]
+	*v.log = append(*v.log, []any{id, append([]string{}, v.path...)})
+	if v.prune[id] {
+		return nil
+	}
+	return v
+}
+func (v *pathVisitor) VisitMany(ns []ast.Node) ast.Visitor { return v }
+func (v *pathVisitor) Field(name string) ast.Visitor        { return v.with(name) }
+func (v *pathVisitor) Index(i int) ast.Visitor              { return v.with("#" + strconv.Itoa(i)) }
+
+func (g *gramRun) writeWalk(root ast.Node) {
+	roots := []ast.Node{root}
+	g.walkRecord(roots)
+	if g.prevRoot != nil && !g.walkBasic {
+		g.walkRecord([]ast.Node{g.prevRoot, root}) // the *Many variants
+	}
+	g.prevRoot = root
+}
+
+func (g *gramRun) walkRecord(roots []ast.Node) {
+	rec := walkRec{}
+	ids := map[ast.Node]int{}
+	var add func(n ast.Node, depth int)
+	add = func(n ast.Node, depth int) {
+		if _, seen := ids[n]; seen || depth > 2000 {
+			return
+		}
+		rec.Nodes = append(rec.Nodes, walkNode{Kind: kindOf(n), Ch: [][]any{}})
+		id := len(rec.Nodes)
+		ids[n] = id
+		for _, c := range children(n) {
+			if c.Node == nil {
+				continue
+			}
+			add(c.Node, depth+1)
+			rec.Nodes[id-1].Ch = append(rec.Nodes[id-1].Ch, []any{c.Field, c.Index, ids[c.Node]})
+		}
+	}
+	for _, r := range roots {
+		add(r, 0)
+		rec.Roots = append(rec.Roots, ids[r])
+	}
+	n := len(rec.Nodes)
+	many := len(roots) > 1
+	rng := rand.New(rand.NewSource(g.seed + int64(n)))
+	pruneSets := [][]int{{}, {}}
+	for id := 1; id <= n; id++ {
+		if id%3 == 0 {
+			pruneSets[1] = append(pruneSets[1], id)
+		}
+	}
+	var rnd []int
+	for id := 1; id <= n; id++ {
+		if rng.Intn(4) == 0 {
+			rnd = append(rnd, id)
+		}
+	}
+	pruneSets = append(pruneSets, rnd, []int{1 + rng.Intn(n)})
+	if g.walkBasic {
+		pruneSets = pruneSets[:1] // C19 only needs "the fields in declaration order": the unpruned walk
+	}
+	for _, ps := range pruneSets {
+		pm := map[int]bool{}
+		for _, id := range ps {
+			pm[id] = true
+		}
+		// Walk with a path-recording visitor
+		run := walkRun{Mode: "walk", Prune: append([]int{}, ps...), Log: [][]any{}}
+		v := &pathVisitor{ids: ids, prune: pm, log: &run.Log}
+		if ok, _ := safely(func() {
+			if many {
+				ast.WalkMany(roots, v)
+			} else {
+				ast.Walk(roots[0], v)
+			}
+		}); !ok {
+			run.Pan = true
+		}
+		rec.Runs = append(rec.Runs, run)
+		// Inspect: returning false prunes
+		run2 := walkRun{Mode: "inspect", Prune: append([]int{}, ps...), Log: [][]any{}}
+		f := func(nd ast.Node) bool {
+			run2.Log = append(run2.Log, []any{ids[nd], []string{}})
+			return !pm[ids[nd]]
+		}
+		if ok, _ := safely(func() {
+			if many {
+				ast.InspectMany(roots, f)
+			} else {
+				ast.Inspect(roots[0], f)
+			}
+		}); !ok {
+			run2.Pan = true
+		}
+		rec.Runs = append(rec.Runs, run2)
+	}
+	for _, stop := range []int{0, 1, 2, n / 2, n - 1} {
+		if stop < 0 || stop > n || g.walkBasic {
+			continue
+		}
+		run := walkRun{Mode: "preorder", Prune: []int{}, Stop: stop, Log: [][]any{}}
+		if ok, _ := safely(func() {
+			k := 0
+			seq := ast.Preorder(roots[0])
+			if many {
+				seq = ast.PreorderMany(roots)
+			}
+			for nd := range seq {
+				run.Log = append(run.Log, []any{ids[nd], []string{}})
+				k++
+				if stop > 0 && k == stop {
+					break
+				}
+			}
+		}); !ok {
+			run.Pan = true
+		}
+		rec.Runs = append(rec.Runs, run)
+	}
+	b, _ := json.Marshal(rec)
+	g.walk.Write(b)
+	g.walk.WriteByte('\n')
+}
+
+// ---------------------------------------------------------------------------------------------
+// C19: position expressions.  The harness parses the "// pos =" / "// end =" documentation of every
+// node struct with its own reader of the POS EBNF (printed at the top of ast/ast.go), logs the
+// field environment of every parsed node and the observed Pos()/End(); PosLangTrace.tla evaluates
+// the expression.  The repository's own interpreter (tools/util/poslang) is run as well.
+// ---------------------------------------------------------------------------------------------
+
+type posDoc struct {
+	PosSrc, EndSrc string
+	Pos, End       any // expression trees (JSON-able)
+	iPos, iEnd     poslang.PosExpr
+}
+
+var posDocs = map[string]*posDoc{}
+
+func loadPosDocs(path string) error {
+	fh, err := os.Open(path)
+	if err != nil {
+		return err
+	}
+	defer fh.Close()
+	reType := regexp.MustCompile(`^type (\w+) struct \{`)
+	rePos := regexp.MustCompile(`^\s*// pos = (.*)$`)
+	reEnd := regexp.MustCompile(`^\s*// end = (.*)$`)
+	sc := bufio.NewScanner(fh)
+	sc.Buffer(make([]byte, 1<<20), 1<<24)
+	cur := ""
+	for sc.Scan() {
+		line := sc.Text()
+		if m := reType.FindStringSubmatch(line); m != nil {
+			cur = m[1]
+			posDocs[cur] = &posDoc{}
+			continue
+		}
+		if cur == "" {
+			continue
+		}
+		if m := rePos.FindStringSubmatch(line); m != nil {
+			posDocs[cur].PosSrc = strings.TrimSpace(m[1])
+		}
+		if m := reEnd.FindStringSubmatch(line); m != nil {
+			posDocs[cur].EndSrc = strings.TrimSpace(m[1])
+		}
+		if line == "}" {
+			cur = ""
+		}
+	}
+	for name, d := range posDocs {
+		if d.PosSrc == "" || d.EndSrc == "" {
+			delete(posDocs, name)
+			continue
+		}
+		var err error
+		if d.Pos, err = parsePosDoc(d.PosSrc); err != nil {
+			return fmt.Errorf("%s pos: %v", name, err)
+		}
+		if d.End, err = parsePosDoc(d.EndSrc); err != nil {
+			return fmt.Errorf("%s end: %v", name, err)
+		}
+		d.iPos, _ = poslang.Parse(d.PosSrc)
+		d.iEnd, _ = poslang.Parse(d.EndSrc)
+	}
+	return sc.Err()
+}
+
+// ---- reader of the POS EBNF -------------------------------------------------------------------
+//
+//	PosChoice -> PosExpr ("||" PosExpr)*          PosExpr -> PosAtom ("+" IntAtom)*
+//	PosAtom   -> PosVar | NodeExpr "." ("pos" | "end")
+//	NodeExpr  -> NodeAtom | "(" NodeAtom ("??" NodeAtom)* ")"
+//	NodeAtom  -> NodeVar | NodeSliceVar "[" (IntAtom | "$") "]"
+//	IntAtom   -> IntVal | "len" "(" StringVar ")" | "(" BoolVar "?" IntAtom ":" IntAtom ")"
+type posReader struct {
+	toks []string
+	i    int
+}
+
+func tokenizePos(s string) []string {
+	re := regexp.MustCompile(`\|\||\?\?|[A-Za-z_][A-Za-z_0-9]*|[0-9]+|[()\[\]$+.?:]`)
+	return re.FindAllString(s, -1)
+}
+func (r *posReader) peek() string {
+	if r.i < len(r.toks) {
+		return r.toks[r.i]
+	}
+	return ""
+}
+func (r *posReader) next() string { t := r.peek(); r.i++; return t }
+func (r *posReader) expect(t string) {
+	if r.next() != t {
+		panic(fmt.Errorf("expected %q at token %d of %v", t, r.i, r.toks))
+	}
+}
+func isName(t string) bool { return t != "" && (t[0] == '_' || (t[0] >= 'A' && t[0] <= 'Z') || (t[0] >= 'a' && t[0] <= 'z')) }
+
+func parsePosDoc(src string) (e any, err error) {
+	defer func() {
+		if x := recover(); x != nil {
+			err = fmt.Errorf("%v", x)
+		}
+	}()
+	r := &posReader{toks: tokenizePos(src)}
+	e = r.choice()
+	if r.i != len(r.toks) {
+		panic(fmt.Errorf("trailing tokens in %q", src))
+	}
+	return
+}
+func (r *posReader) choice() any {
+	args := []any{r.posExpr()}
+	for r.peek() == "||" {
+		r.next()
+		args = append(args, r.posExpr())
+	}
+	return map[string]any{"op": "choice", "args": args}
+}
+func (r *posReader) posExpr() any {
+	x := r.posAtom()
+	ns := []any{}
+	for r.peek() == "+" {
+		r.next()
+		ns = append(ns, r.intAtom())
+	}
+	return map[string]any{"op": "add", "x": x, "ns": ns}
+}
+func (r *posReader) posAtom() any {
+	if r.peek() == "(" {
+		r.next()
+		args := []any{r.nodeAtom()}
+		for r.peek() == "??" {
+			r.next()
+			args = append(args, r.nodeAtom())
+		}
+		r.expect(")")
+		return r.posOrEnd(map[string]any{"op": "nchoice", "args": args})
+	}
+	name := r.next()
+	if !isName(name) {
+		panic(fmt.Errorf("name expected, got %q", name))
+	}
+	if r.peek() == "[" || r.peek() == "." {
+		r.i--
+		return r.posOrEnd(map[string]any{"op": "nchoice", "args": []any{r.nodeAtom()}})
+	}
+	return map[string]any{"op": "posvar", "name": name}
+}
+func (r *posReader) posOrEnd(node any) any {
+	r.expect(".")
+	switch r.next() {
+	case "pos":
+		return map[string]any{"op": "npos", "node": node}
+	case "end":
+		return map[string]any{"op": "nend", "node": node}
+	}
+	panic(fmt.Errorf("pos or end expected"))
+}
+func (r *posReader) nodeAtom() any {
+	name := r.next()
+	if !isName(name) {
+		panic(fmt.Errorf("node name expected, got %q", name))
+	}
+	if r.peek() == "[" {
+		r.next()
+		if r.peek() == "$" {
+			r.next()
+			r.expect("]")
+			return map[string]any{"op": "nlast", "name": name}
+		}
+		i := r.intAtom()
+		r.expect("]")
+		return map[string]any{"op": "nidx", "name": name, "i": i}
+	}
+	return map[string]any{"op": "nvar", "name": name}
+}
+func (r *posReader) intAtom() any {
+	t := r.next()
+	switch {
+	case t == "len":
+		r.expect("(")
+		name := r.next()
+		r.expect(")")
+		return map[string]any{"op": "len", "name": name}
+	case t == "(":
+		name := r.next()
+		r.expect("?")
+		a := r.intAtom()
+		r.expect(":")
+		b := r.intAtom()
+		r.expect(")")
+		return map[string]any{"op": "cond", "name": name, "a": a, "b": b}
+	default:
+		v, err := strconv.Atoi(t)
+		if err != nil {
+			panic(fmt.Errorf("integer expected, got %q", t))
+		}
+		return map[string]any{"op": "int", "v": v}
+	}
+}
+
+func posNames(e any, out map[string]bool) {
+	switch x := e.(type) {
+	case map[string]any:
+		if n, ok := x["name"].(string); ok {
+			out[n] = true
+		}
+		for _, v := range x {
+			posNames(v, out)
+		}
+	case []any:
+		for _, v := range x {
+			posNames(v, out)
+		}
+	}
+}
+
+func nodeEnv(n ast.Node) map[string]any {
+	if n == nil {
+		return map[string]any{"nil": true, "pos": -1, "end": -1}
+	}
+	p, e := -9, -9
+	safely(func() { p = int(n.Pos()) })
+	safely(func() { e = int(n.End()) })
+	return map[string]any{"nil": false, "pos": p, "end": e}
+}
+
+func (g *gramRun) writePosl(root ast.Node) {
+	// The repository's interpreter is evaluated for all nodes of the tree side by side (one goroutine
+	// per node): its result must not depend on who else is evaluating.
+	var all []ast.Node
+	eachNode(root, 0, func(n ast.Node, _ int) { all = append(all, n) })
+	type iv struct{ p, e int }
+	interp := make([]iv, len(all))
+	var wg sync.WaitGroup
+	for i, n := range all {
+		interp[i] = iv{-9, -9}
+		d := posDocs[kindOf(n)]
+		if d == nil || d.iPos == nil || d.iEnd == nil {
+			continue
+		}
+		wg.Add(1)
+		go func(i int, n ast.Node, d *posDoc) {
+			defer wg.Done()
+			safely(func() { interp[i].p = int(d.iPos.EvalPos(n)) })
+			safely(func() { interp[i].e = int(d.iEnd.EvalPos(n)) })
+		}(i, n, d)
+	}
+	wg.Wait()
+	idx := -1
+	eachNode(root, 0, func(n ast.Node, _ int) {
+		idx++
+		kind := kindOf(n)
+		d := posDocs[kind]
+		if d == nil {
+			g.stats.Findings["C19-undocumented-"+kind]++
+			return
+		}
+		names := map[string]bool{}
+		posNames(d.Pos, names)
+		posNames(d.End, names)
+		env := map[string]any{}
+		v := reflect.ValueOf(n).Elem()
+		for name := range names {
+			fv := v.FieldByName(name)
+			if !fv.IsValid() {
+				env[name] = map[string]any{"missing": true}
+				continue
+			}
+			switch {
+			case fv.Type() == posType:
+				env[name] = map[string]any{"v": int(fv.Int())}
+			case isNodeType(fv.Type()):
+				env[name] = nodeEnv(asNode(fv))
+			case isNodeSlice(fv.Type()):
+				items := []any{}
+				for i := 0; i < fv.Len(); i++ {
+					items = append(items, nodeEnv(asNode(fv.Index(i))))
+				}
+				env[name] = map[string]any{"items": items}
+			case fv.Kind() == reflect.Bool:
+				env[name] = map[string]any{"b": fv.Bool()}
+			case fv.Kind() == reflect.String:
+				env[name] = map[string]any{"len": len(fv.String())}
+			default:
+				env[name] = map[string]any{"missing": true}
+			}
+		}
+		rec := map[string]any{"kind": kind, "posx": d.Pos, "endx": d.End, "env": env, "pos": int(n.Pos()), "end": int(n.End()), "ipos": interp[idx].p, "iend": interp[idx].e}
+		b, _ := json.Marshal(rec)
+		g.posl.Write(b)
+		g.posl.WriteByte('\n')
+		g.stats.Kinds["posl:"+kind]++
+	})
+}
+
+var _ = token.InvalidPos
